@@ -23,9 +23,36 @@ m = {
     "not_applicable": [],
     "notes": "See DESIGN.md. proof = all T1 obligations carry the core of the statement; other = T1 proves mechanisms, composition bounded; exploration = bounded only.",
 }
+import re
+
+_STALE = re.compile(r"\s*(?:One|Two|Three|Four|Five|Six|Seven) (?:defects?|recorded findings)\b[^.]*?(?:repaired|recorded)[^.]*\.(?=\s|$)")
+
+
+def defects_sentence(pid):
+    """generated from known_findings.d (the hand-written counts in registry.py go stale as repairs land)"""
+    p = os.path.join(os.path.dirname(os.path.abspath(__file__)), "known_findings.d", pid + ".json")
+    if not os.path.exists(p):
+        return " No defect of the pinned tree was found for this property."
+    d = json.load(open(p))
+    commits = []
+    for line in d.get("fixed", []):
+        mm = re.match(r"fixed: property=C\d+ ([0-9a-f+]+) ", line)
+        if mm:
+            commits += [c for c in mm.group(1).split("+") if c not in commits]
+    ids = sorted({re.sub(r"(KF-C\d+-\d+).*", r"\1", f["id"]) for f in d.get("findings", [])})
+    out = []
+    if d.get("fixed"):
+        out.append(f"{len(d['fixed'])} defect(s) of the pinned tree repaired in /repo ({', '.join(commits)})")
+    if ids:
+        out.append(f"{len(ids)} recorded as known finding(s) ({', '.join(ids)})")
+    return (" Defects: " + "; ".join(out) + ".") if out else " No defect of the pinned tree was found for this property."
+
+
 for pid in registry.ALL:
     if pid in registry.CLAIMED:
-        c = registry.CLAIMED[pid]
+        c = dict(registry.CLAIMED[pid])
+        t = _STALE.sub("", c["text"]).replace(" Seven recorded findings (KF-C06-1..7).", "").rstrip()
+        c["text"] = (t if t.endswith(".") else t + ".") + defects_sentence(pid)
         m["checks"].append({
             "property_id": pid,
             "quick_cmd": f"./check {pid} --tier quick",
